@@ -109,6 +109,7 @@ def event(base: Dict[str, Any], sess: Session, ok, exc, timeout=False, extra=Non
     ev = {
         "op": base["op"], "p": base.get("p", []), "q": base.get("q", []),
         "key": base.get("key", ""), "v": base.get("v", ""),
+        "shallow": bool(base.get("shallow", False)), "noattrs": bool(base.get("noattrs", False)),
         "ok": ok, "exc": exc or "", "timeout": timeout,
         "view": proj["view"], "visit": proj["visit"],
         "hasraw": False, "raw": [], "viewerr": viewerr,
